@@ -1092,7 +1092,24 @@ fn gen_text(r: &mut Rng, big: bool) -> String {
         if odd {
             s.push('z');
         }
+        // a line break near the start or somewhere inside a long run: a cut that is moved to a line start
+        // (instead of the computed byte position) keeps far more than the cap
+        let nl_at = match r.below(4) {
+            0 => Some(0u64),
+            1 => Some(r.below(n.max(1))),
+            _ => None,
+        };
+        if nl_at == Some(0) {
+            s.push_str("hdr\n");
+        }
+        let mut placed = false;
         while (s.len() as u64) < n {
+            if let Some(k) = nl_at {
+                if !placed && k > 0 && s.len() as u64 >= k {
+                    s.push('\n');
+                    placed = true;
+                }
+            }
             s.push_str(unit);
         }
         return s;
@@ -1204,6 +1221,76 @@ fn corpus() -> Vec<Case> {
         // S18 witness: running tool + error chip on a 20-column canvas cut the chips line inside a glyph
         Case { max_frames: 10, max_out: 100, af: true, evs: vec![Ev { seq: 0, ts: 1, k: K::ToolStarted(0), ident: 0 }, Ev { seq: 1, ts: 2, k: K::CheckpointFailed, ident: 1 }], probes: vec![0, 1] },
     ]
+    .into_iter()
+    .chain(preview_overflow_cases())
+    .collect()
+}
+
+/// Previews (tool stdout/stderr, task stdout/stderr/pty) are capped at 8192 bytes by keeping a suffix cut on a char
+/// boundary.  These cases overflow the cap with line breaks at chosen distances before the cut, in one chunk and
+/// accumulated over several, with 1-4-byte units straddling the cut: a cut moved to a line start, a char or any other
+/// "nicer" position keeps more than the cap.
+fn preview_overflow_cases() -> Vec<Case> {
+    // kept small (each case <= ~20 000 code points): the cases are list literals that Coq has to parse
+    let mut out = vec![];
+    let mut ident = 0u64;
+    let mut ev = |seq: u64, k: K| {
+        ident += 1;
+        Ev { seq, ts: 1 + seq, k, ident }
+    };
+    let variants: [(&str, &str, usize, usize, u64); 8] = [
+        ("a", "hdr\n", 9000, 1, 0),
+        ("a", "x\n", 12_000, 1, 1),
+        ("€", "", 8190, 3, 2),
+        ("a", "line1\nline2\n", 8200, 2, 0),
+        ("é", "\n", 8192, 1, 1),
+        ("a", "ab\n", 8193, 4, 2),
+        ("😀", "h\n", 8400, 2, 0),
+        ("a", "", 8100, 1, 1),
+    ];
+    for (vi, (unit, head, tail_bytes, pieces, stream)) in variants.iter().enumerate() {
+        let mut body = String::from(*head);
+        while body.len() < head.len() + tail_bytes {
+            body.push_str(unit);
+        }
+        let chars: Vec<char> = body.chars().collect();
+        let per = (chars.len() / pieces).max(1);
+        let chunks: Vec<String> = chars.chunks(per).map(|c| c.iter().collect()).collect();
+        let id = vi as u64 % 3;
+        let mut evs = vec![];
+        let mut seq = 0;
+        if vi % 2 == 0 {
+            evs.push(ev(seq, K::ToolStarted(id)));
+            seq += 1;
+            for (ci, c) in chunks.iter().enumerate() {
+                evs.push(ev(seq, if (ci + vi / 2) % 2 == 0 { K::ToolStdout(id, c.clone()) } else { K::ToolStderr(id, c.clone()) }));
+                seq += 1;
+            }
+            if vi % 4 == 2 {
+                // a second overflow right after a newline-terminated chunk (the state is only looked at after the
+                // last frame, so the other cases END on the overflowing chunk)
+                evs.push(ev(seq, K::ToolStdout(id, format!("{}\n", unit.repeat(20)))));
+                seq += 1;
+                evs.push(ev(seq, K::ToolStdout(id, unit.repeat(600 / unit.len()))));
+            } else {
+                seq -= 1;
+            }
+        } else {
+            evs.push(ev(seq, K::TaskSpawned(id, vec![])));
+            seq += 1;
+            for c in chunks.iter() {
+                evs.push(ev(seq, K::TaskDelta(id, *stream, c.clone(), vec![])));
+                seq += 1;
+            }
+            if vi % 4 == 3 {
+                evs.push(ev(seq, K::TaskDelta(id, *stream, format!("{}\n{}", unit.repeat(20), unit.repeat(600 / unit.len())), vec![])));
+            } else {
+                seq -= 1;
+            }
+        }
+        out.push(Case { max_frames: 40, max_out: 64, af: true, evs, probes: vec![0, 1, seq] });
+    }
+    out
 }
 
 fn main() {
